@@ -13,6 +13,7 @@ RULE = ('lists of 0-24 line crops, widths 1..2500 px (beyond 480*batch -> trunca
         'each list also processed reversed and shuffled; PageOCR.process_page through its real constructor. non-trivial = list with >= 2 lines of different widths; '
         'distinct = hash of (widths, batch size, mode, pixel seed) Restricted-alphabet stub (-inf logits); two-input embedding engine living for the whole run with embed_id re-assigned per case; PageOCR pages of 513-1300 lines. One injected network fault on the long-lived engine; a page recognised again after re-cropping.')
 RULE += ' Round 6: Networks with all scores far below zero; the pixel budget re-assigned after construction.'
+RULE += ' Round 7: Re-assigned padding (also not a multiple of the frame width); a sequence-to-sequence engine through process_lines; blank crops of equal byte size on PageOCR pages.'
 ASSUMPTIONS = ['stub network = Conv2d(kernel (H,4), stride 4) with a blank bias: frame t depends on columns [4t,4t+4) only and all-zero padding decodes to blank (the premise of the property)',
                'float32 logits compared within 1e-4; sparse entries with posterior within +-20 % of 1e-4 are not judged',
                'for truncated lines (padded batch wider than 480*batch) only order-independence and the window start are required']
